@@ -402,6 +402,9 @@ func runCheck(prop, tier string) int {
 		fmt.Println(l)
 	}
 
+	if debugCallers {
+		printCallerStats()
+	}
 	// ---- evidence ----
 	for ji, jr := range cr.results {
 		if len(samples) >= 6 {
@@ -677,6 +680,11 @@ func (cr *checkRun) validatePredictions(seed int64) (int, []string) {
 			if p.EndModel == nil {
 				continue
 			}
+			if modelRefuted(p.EndModel, p.PC) {
+				// the path needs values the native functions behind the uninterpreted symbols do not
+				// produce for this model (e.g. a SHA-256 prefix collision): no concrete counterpart
+				continue
+			}
 			picks = append(picks, pick{cr.jobs[ji], p})
 		}
 	}
@@ -739,4 +747,19 @@ func (cr *checkRun) validatePredictions(seed int64) (int, []string) {
 		}
 	}
 	return n, mm
+}
+
+// modelRefuted: some constraint evaluates to false under the model with the native
+// interpretation of the uninterpreted symbols (constraints that cannot be evaluated are skipped).
+func modelRefuted(mod *Model, q []*Term) bool {
+	for _, t := range q {
+		r, err := mod.Eval(t)
+		if err != nil {
+			continue
+		}
+		if b, ok := r.(bool); ok && !b {
+			return true
+		}
+	}
+	return false
 }
